@@ -44,6 +44,10 @@ func (p c07) Run(c *core.Ctx) {
 		p.twoApps(c)
 		return
 	}
+	if c.Index%16 == 11 {
+		p.ppHolder(c)
+		return
+	}
 	// few types => many same-typed providers
 	pool := world.TypesAll
 	k := 2 + c.Rng.Intn(5)
@@ -361,4 +365,42 @@ func (p c07) twoApps(c *core.Ctx) {
 	}
 	c.Count("two_application_cases", 1)
 	c.Nontrivial("twoapps|" + g1.Sc.GraphSig() + "|" + g2.Sc.GraphSig())
+}
+
+// ppHolder: a post-processor that is itself a component has by-name points like anybody else: they receive
+// exactly the named components, and a required one that names nothing fails the start.
+func (p c07) ppHolder(c *core.Ctx) {
+	g := world.NewG(c.Rng)
+	tgt := g.AddNode([]int{0, 1, 3, 8}[c.Rng.Intn(4)], "np-target")
+	g.AddNode([]int{0, 1, 3}[c.Rng.Intn(3)], g.FreshName(1)) // another IA that must not be confused with it
+	req := -1
+	if c.Rng.Intn(2) == 0 {
+		req = g.AddNode([]int{0, 1, 3, 8}[c.Rng.Intn(4)], "np-req")
+	}
+	g.ShuffleOrders()
+	pp := &world.NamePP{}
+	r := world.Start(g.Sc, world.Options{Extra: []any{pp}})
+	c.Count("starts", 1)
+	c.Count("post_processor_holder_starts", 1)
+	detail := failDetail(g.Sc, r, map[string]any{"np-req registered": req >= 0})
+	if abnormal(r.Outcome()) {
+		c.Fail("", "post-processor with by-name points: "+core.Short(r.OutcomeDetail(), 300), detail)
+		return
+	}
+	if req < 0 {
+		if r.Outcome() != "error" {
+			c.Fail("", "a post-processor's required by-name point names no registered component, but the start succeeded", detail)
+			return
+		}
+	} else {
+		if r.Outcome() != "ok" {
+			c.Fail("", "post-processor whose by-name points are all satisfiable: "+core.Short(r.OutcomeDetail(), 300), detail)
+			return
+		}
+		if pp.One != any(r.Nodes[tgt]) || pp.AnyOne != any(r.Nodes[tgt]) || pp.Req != any(r.Nodes[req]) || pp.Absent != nil {
+			c.Fail("", fmt.Sprintf("post-processor's by-name points: One=%p AnyOne=%p (np-target is %p) Req=%p (np-req is %p) Absent=%v", pp.One, pp.AnyOne, r.Nodes[tgt], pp.Req, r.Nodes[req], pp.Absent), detail)
+			return
+		}
+	}
+	c.Nontrivial(fmt.Sprintf("ppholder|%v|%s", req >= 0, g.Sc.GraphSig()))
 }
